@@ -13,7 +13,7 @@ func init() {
 		ID:        "C31",
 		Roots:     []string{"store"},
 		Technique: "guarded-sink reachability plus reaching-definitions of the `err` result cell in Store.Download; must-pass-through of the digest comparison in downloadImpl and applyDeltaImpl",
-		Explanation: "Structural necessary conditions for 'a downloaded snap is only kept if its digest matches': (R1) Store.Download reaches os.Rename(w.Name(), targetPath) only across `err == nil` on the result cell, and every definition of that cell reaching the test is the verdict of download(…, downloadInfo.Sha3_384, …, w, …), a constructed non-nil error, or a value that can only survive to the test through the `downloadInfo.Sha3_384 == actualSha3` edge of the local re-hash; every literal success return is the cache hit or a successful delta; (R2) in downloadImpl every path from a successful body copy to the return passes the comparison of the expected digest with the digest of the hash object that was fed by the same MultiWriter as the file, the mismatch edge yields HashError, and the no-resume fallback rewinds the file and replaces the hash; (R3) applyDeltaImpl moves the partial file onto the target only when no digest was requested or the file digest equals it, and removes the partial on mismatch.",
+		Explanation: "Structural necessary conditions for 'a downloaded snap is only kept if its digest matches': (R1) Store.Download reaches os.Rename(w.Name(), targetPath) only across `err == nil` on the result cell, and every definition of that cell reaching the test is the verdict of download(…, downloadInfo.Sha3_384, …, w, …), a constructed non-nil error, or a value that can only survive to the test through the `downloadInfo.Sha3_384 == actualSha3` edge of the local re-hash; every literal success return is the cache hit or a successful delta; the local re-hash reads the whole temp file from offset 0 with io.Copy(h, w); the single retry after a digest mismatch truncates and rewinds the file and restarts at offset 0; (R2) in downloadImpl every path from a successful body copy to the return passes the comparison of the expected digest with the digest of the hash object that was fed by the same MultiWriter as the file, the mismatch edge yields HashError, and the no-resume fallback rewinds the file and replaces the hash; (R3) applyDeltaImpl moves the partial file onto the target only when no digest was requested or the file digest equals it, and removes the partial on mismatch.",
 		NotDecided: "retry-exhaustion interplay (that a `continue` is only taken when another attempt follows: attempt.More()); server behaviour; the hash function.",
 		Run:        runC31,
 	})
@@ -179,6 +179,74 @@ func runC31(c *Ctx) {
 		c.Check(len(a) == 6 && IsParam(a[4], dad, 2) && dlInfoSha(dad, 3)(a[5]), fmt.Sprintf("store.(*Store).downloadAndApplyDelta#applyDelta-args#%d", i+1), ac.Pos(), "applyDelta receives targetPath and downloadInfo.Sha3_384", "applyDelta is not given the snap's expected digest")
 	}
 
+	// the local re-hash covers the whole file: Seek(0) then io.Copy(h, w) (not a bounded copy), and the digest compared is h.Sum
+	ioCopyObj := P.FuncObj("io.Copy")
+	seekObj := P.FuncObj("os.(*File).Seek")
+	truncObj := P.FuncObj("os.(*File).Truncate")
+	hashSum := P.FuncObj("hash.Hash.Sum")
+	nRehash := 0
+	for _, sc := range CallSites(dl, sprintf) {
+		// actualSha3 := fmt.Sprintf("%x", h.Sum(nil))
+		els := VarargElems(sc.Common().Args[1])
+		if len(els) != 1 {
+			continue
+		}
+		sumCall, _, ok := CallResult(stripIfaceVal(els[0]))
+		if !ok || !ToFn(hashSum)(sumCall) {
+			continue
+		}
+		nRehash++
+		h := CallRecv(sumCall)
+		fed := false
+		for _, cc := range CallSites(dl, ioCopyObj) {
+			a := cc.Common().Args
+			if stripIfaceVal(a[0]) == stripIfaceVal(h) || Strip(stripIfaceVal(a[0])) == Strip(stripIfaceVal(h)) {
+				if wVal(stripIfaceVal(a[1])) {
+					fed = true
+					c.Before(fmt.Sprintf("store.(*Store).Download#rehash-from-start#%d", nRehash), dl, SinkCallM(CallWhere(RecvWhere(ToFn(seekObj), wVal), 1, VConstInt(0))), "w.Seek(0, SEEK_SET)", cc, nil)
+				}
+			}
+		}
+		c.Check(fed, fmt.Sprintf("store.(*Store).Download#rehash-whole-file#%d", nRehash), sc.Pos(), "the digest compared is that of io.Copy(h, w) over the whole temp file", "the digest of the already complete partial file is not computed with io.Copy(h, w) over the whole file (a bounded copy hashes only a prefix: trailing bytes are never checked and the over-long file is renamed to the target)")
+	}
+	if nRehash == 0 {
+		c.Undecided("store.(*Store).Download#rehash", dl.Pos(), "the local re-hash (fmt.Sprintf(\"%x\", h.Sum(nil))) was not found")
+	}
+	// the retry after a digest mismatch starts from an empty file: Truncate(0) and Seek(0) precede the second download on every path
+	hashErrT0 := P.NamedType("store.HashError")
+	isHashErr := TypeIs("err.(HashError)", anyVal, hashErrT0)
+	nRetry := 0
+	for _, b := range dl.Blocks {
+		for si := range b.Succs {
+			if !AtomEdges(isHashErr)(b, si) {
+				continue
+			}
+			for _, dc := range dcalls {
+				if !(ReachQ{Fn: dl, From: &Loc{b.Succs[si], -1}, Sink: SinkIs(dc)}).Run().Found {
+					continue
+				}
+				nRetry++
+				for _, step := range []struct {
+					name string
+					m    CallM
+				}{
+					{"w.Truncate(0)", CallWhere(RecvWhere(ToFn(truncObj), wVal), 1, VConstInt(0))},
+					{"w.Seek(0, ...)", CallWhere(RecvWhere(ToFn(seekObj), wVal), 1, VConstInt(0))},
+				} {
+					q := ReachQ{Fn: dl, From: &Loc{b.Succs[si], -1}, CutInstr: SinkCallM(step.m), Sink: SinkIs(dc)}
+					r := q.Run()
+					c.Check(!r.Found, fmt.Sprintf("store.(*Store).Download#retry-from-empty-file:%s#%d", step.name, nRetry), dc.Pos(), step.name+" precedes the retry", "after a digest mismatch the download is retried without "+step.name+" on some path: bytes of the rejected body beyond the new one stay in the file, which then passes the (new-bytes-only) digest check and is renamed to the target: "+P.PathString(r.Path))
+				}
+				// the retry restarts at offset 0
+				a := dc.Common().Args
+				c.Check(len(a) == 10 && VConstInt(0)(a[7]), fmt.Sprintf("store.(*Store).Download#retry-offset-0#%d", nRetry), dc.Pos(), "the retry downloads from offset 0", "the retry after a digest mismatch does not restart at offset 0")
+			}
+		}
+	}
+	if nRetry == 0 {
+		c.Undecided("store.(*Store).Download#hash-retry", dl.Pos(), "the retry-once-on-HashError block was not recognised")
+	}
+
 	// ---- R2
 	c.Rule("C31-R2", "G", "downloadImpl: from a successful body copy every path to the return passes the expected-vs-actual digest comparison; mismatch => HashError; the hash object summed is the one written by the MultiWriter together with the file; no-resume fallback rewinds file and hash", 4)
 	di := P.Func("store.downloadImpl")
@@ -332,6 +400,19 @@ func runC31(c *Ctx) {
 			q := ReachQ{Fn: ad, From: &Loc{b.Succs[si], -1}, CutInstr: SinkCall(osRemove), Sink: func(in ssa.Instruction) bool { _, ok := in.(*ssa.Return); return ok }}
 			r := q.Run()
 			c.Check(!r.Found, fmt.Sprintf("store.(*Store).applyDeltaImpl#mismatch-removes#%d", nr), b.Instrs[len(b.Instrs)-1].Pos(), "on digest mismatch the partial file is removed before returning", "on digest mismatch the partial delta target is left behind")
+		}
+	}
+}
+
+func stripIfaceVal(v ssa.Value) ssa.Value {
+	for {
+		switch x := v.(type) {
+		case *ssa.MakeInterface:
+			v = x.X
+		case *ssa.ChangeInterface:
+			v = x.X
+		default:
+			return v
 		}
 	}
 }
